@@ -213,7 +213,8 @@ func (vc *VC) execSlice(x *ssa.Slice, pc string, st *State) {
 		vc.oblige("slice", "", pc, and(sx("<=", "0", lo), sx("<=", lo, hi), sx("<=", hi, sx("s_cap", s))), nil, x.Pos(), "slice bounds")
 		// slicing a nil slice yields nil
 		r := sx("mk_slice", sx("s_arr", s), sx("+", sx("s_off", s), lo), sx("-", hi, lo), sx("-", sx("s_cap", s), lo))
-		vc.setVal(x, r)
+		rn := vc.setVal(x, r)
+		vc.assume(pc, fmt.Sprintf("(forall ((i!e Int)) (! (= (elemloc %s i!e) (elemloc %s (+ %s i!e))) :pattern ((elemloc %s i!e))))", rn, s, lo, rn))
 		return
 	}
 	panic(unsupported("Slice of " + x.X.Type().String()))
